@@ -19,7 +19,9 @@ def sh(cmd, cwd=None, timeout=3600, env=None):
 
 def demo():
     meta = json.load(open(os.path.join(OUT, "meta.json")))
-    rc, out = sh(meta["how_to_run"], cwd=OUT, timeout=1200)
+    import re
+    cmd = re.sub(r"\s{2,}\(.*\)\s*$", "", meta["how_to_run"])     # drop a trailing parenthesised remark
+    rc, out = sh(cmd, cwd=OUT, timeout=1200)
     ok = (rc == 0 and "FAIL" not in out)
     return ok, rc, out[-1500:]
 
